@@ -35,5 +35,6 @@ def run(F, X, rep):
     H.u3_reject_before_add(C, rep, "C03-R9", which=("conflict",))
     # "the HTLCs counted stay held until the payment's fate is known": pay's Err (which releases them) is returned only
     # once nothing is pending or complete (C16-D, C15-V*)
+    H.q_request_fields_verbatim(C, rep, "C03-Q")
     P.d_dispatch(C, rep, "C03-R10")
     P.v_wait_payment(C, rep, "C03-R10")
